@@ -16,6 +16,7 @@ from mc.runner import Result
 
 PROPERTY = "C12"
 LEVEL = "model_checking"
+TECHNIQUE = "exhaustive enumeration of the option product under a raising scheduler with tripwire blocks"
 ENGINE = "E1"
 RULE = (
     "state = (API, reduction/scan, method, engine, reindex, labels numpy|dask, expected_groups given|absent, label layout, chunking); "
